@@ -12,7 +12,7 @@ import (
 
 func init() {
 	register(&PropDef{ID: "C03", Title: "A filespace never reaches outside its root, whatever path it is given", Rules: rulesC03,
-		Explanation: "Confinement in goatcore is a lexical mechanism (varutil.ReduceAbsPath). Decided for every string parameter of every method of every type implementing filesystem.Filespace (discovered through the type checker), on all paths: R1 a parameter-derived string that is joined behind a non-constant prefix (a rebased view: base+arg) at any call argument or field store has passed ReduceAbsPath with its error checked on that path — path.Clean/CleanPath are not accepted since they keep a leading '..'; forwarders may pass a parameter on unchanged; R2 the argument that becomes the base of a child view (constructor call or base-path field store in every Filespace(sub) method) is reduced in the method or by the constructor it is handed to (constructor summary computed with the same analysis); R4 every path handed to an os / io/ioutil / filepath.Walk / package disk function from an implementer starts with the receiver's root field and its parameter part is reduced; R5 the memory tree has no parent pointers and traversals start at the root; R6 inside ReduceAbsPath the decrement for '..' is guarded by resultLen != 0 and the zero edge returns a non-nil error. " +
+		Explanation: "Confinement in goatcore is a lexical mechanism (varutil.ReduceAbsPath). Decided for every string parameter of every method of every type implementing filesystem.Filespace (discovered through the type checker), on all paths: R1 a parameter-derived string that is joined behind a non-constant prefix (a rebased view: base+arg) at any call argument or field store has passed ReduceAbsPath with its error checked on that path — path.Clean/CleanPath are not accepted since they keep a leading '..'; forwarders may pass a parameter on unchanged; R2 the argument that becomes the base of a child view (constructor call or base-path field store in every Filespace(sub) method) is reduced in the method or by the constructor it is handed to (constructor summary computed with the same analysis); R4 every path handed to an os / io/ioutil / filepath.Walk / package disk function from an implementer starts with the receiver's root field and its parameter part is reduced; R5 the memory tree has no parent pointers and traversals start at the root; R6 inside ReduceAbsPath the decrement for '..' is guarded by resultLen != 0 and the zero edge returns a non-nil error; R7 every value stored into a view's base-path field ends with the separator its methods rely on when they form base+name. " +
 			"NOT decided: symbolic links on disk (confinement is lexical), byte-identity of the rest of the parent tree, the behaviour of user-supplied inner filespaces.",
 		Assumptions: []string{"a string built only from constants, receiver fields and reduced parameters cannot contain a climbing '..' segment (receiver base fields are themselves set by constructors checked under R2)"}})
 }
@@ -112,6 +112,9 @@ func rulesC03(c *Ctx) {
 
 	// ---- R6 the reducer itself ---------------------------------------------------------
 	ruleReducer(c)
+
+	// ---- R7 view bases are separator-terminated -----------------------------------------
+	c.Floor("R7", ruleViewBaseSeparator(c, "R7", iface, impls), 4)
 }
 
 // ruleReducer: in varutil.ReduceAbsPath every decrement `x - 1` is executed
@@ -451,4 +454,60 @@ func viewConfinementRules(c *Ctx, iface *types.Interface, allImpls, targets []*t
 		}
 	}
 	return nR1, nR2, nR4
+}
+
+// ruleViewBaseSeparator: methods of a rebased view form paths as base+arg with
+// no separator of their own, so every value stored into a base-path field must
+// end with the separator constant.
+func ruleViewBaseSeparator(c *Ctx, rule string, iface *types.Interface, impls []*types.Named) int {
+	n := 0
+	for _, T := range impls {
+		st, ok := T.Underlying().(*types.Struct)
+		if !ok {
+			continue
+		}
+		// discover base fields: left-most part of a rebased sink
+		base := map[int]bool{}
+		for _, f := range c.P.MethodsOf(T, iface) {
+			if f.Blocks == nil {
+				continue
+			}
+			for _, u := range sinkUses(f) {
+				if len(u.Parts) < 2 || !isRebased(u) {
+					continue
+				}
+				for _, l := range u.Parts[0] {
+					if l.Origin.Kind != "field" {
+						continue
+					}
+					for i := 0; i < st.NumFields(); i++ {
+						if strings.HasSuffix(l.Origin.Name, "."+T.Obj().Name()+"."+st.Field(i).Name()) && isStringy(st.Field(i).Type()) {
+							base[i] = true
+						}
+					}
+				}
+			}
+		}
+		if len(base) == 0 {
+			continue
+		}
+		for _, f := range c.P.AllModuleFuncs() {
+			eachInstr(f, func(_ *ssa.BasicBlock, _ int, in ssa.Instruction) {
+				s, ok := in.(*ssa.Store)
+				if !ok {
+					return
+				}
+				fa, ok := s.Addr.(*ssa.FieldAddr)
+				if !ok || !base[fa.Field] || structOf(fa.X.Type()) != st {
+					return
+				}
+				n++
+				parts := flattenTemplate(resolve(s.Val))
+				okS := len(parts) > 0 && parts[len(parts)-1].hole == "" && strings.HasSuffix(parts[len(parts)-1].konst, "/")
+				c.Check(okS, rule, fmt.Sprintf("base path of %s set in %s", implName(T), fname(f)), s.Pos(), "ends with the separator constant: "+renderTemplate(parts),
+					"the view's base path ("+renderTemplate(parts)+") does not end with the '/' its methods rely on when they form base+name — the view maps names onto sibling paths ('app/confnew.txt' for 'app/conf' + 'new.txt')")
+			})
+		}
+	}
+	return n
 }
